@@ -561,6 +561,7 @@ def step_task(exact_in, a_to_b):
         from props import c02
         w = FeeWorld(ctx)
         c02.install_summaries(w.e)
+        w.e.prune_ms, w.es.prune_ms = 800, 400      # pruning is only an optimisation: an unpruned infeasible path yields vacuous (still discharged) pair obligations
         rem = T.var('rem', 0, 2**64 - 1); fee = T.var('fee', 0, 100000); L = T.var('L', 0, 2**128 - 1)
         cur = T.var('cur', MINP, MAXP); tgt = T.var('tgt', MINP, MAXP)
         pre = [T.cmp('<=', tgt, cur) if a_to_b else T.cmp('>=', tgt, cur)]
@@ -570,24 +571,28 @@ def step_task(exact_in, a_to_b):
             return [I(rem, 'u64'), I(fee, 'u32'), I(L, 'u128'), I(cur, 'u128'), I(tgt, 'u128'), B(fi), B(fa)]
         tag = f"step:{'in' if exact_in else 'out'}:{'a2b' if a_to_b else 'b2a'}"
         obls = []
-        n = 0
         w.pre = []
-        for pp, pr in w.e.run('swap_math::compute_swap', mk(False), Path(pre)):
-            if isinstance(pr, Panic) or (isinstance(pr, E) and pr.var == 'Err'): continue      # only successful program computations are constrained
+        # both sides are explored once on their own; every (program Ok path, SDK path) pair then becomes one obligation
+        # pc_program & pc_sdk => same step (infeasible pairs are discharged by their contradictory path conditions), all discharged in parallel
+        P = [(pp, pr) for pp, pr in w.e.run('swap_math::compute_swap', mk(False), Path(pre)) if not isinstance(pr, Panic) and not (isinstance(pr, E) and pr.var == 'Err')]
+        S_ = list(w.es.run('compute_swap_step', mk(True), Path(pre)))
+        n = 0
+        for i, (pp, pr) in enumerate(P):
             pv = pr.fields[0]
             pvals = [pv.get(k).t for k in ('amount_in', 'amount_out', 'next_price', 'fee_amount')]
-            for sp, sr in w.es.run('compute_swap_step', mk(True), pp):
-                key = f'sdk:{tag}:pair{n}'; n += 1
+            for j, (sp, sr) in enumerate(S_):
+                key = f'sdk:{tag}:prog{i}:sdk{j}'; n += 1
+                pc = pp.pc + sp.pc
                 if isinstance(sr, Panic) or (isinstance(sr, E) and sr.var == 'Err'):
-                    # tolerated only when input + fee does not fit u64 (program loop: AmountCalcOverflow)
-                    o = M.Obligation(key + ':sdk_fails_only_on_u64_overflow_of_input_plus_fee', sp.pc, T.cmp('>', T.add(pvals[0], pvals[3]), C(2**64 - 1)),
-                                     note=f'SDK outcome {sdk_kind(sr)[0]}'); o.replay = None; obls.append(o); continue
+                    o = M.Obligation(key + ':sdk_fails_only_on_u64_overflow_of_input_plus_fee', pc, T.cmp('>', T.add(pvals[0], pvals[3]), C(2**64 - 1)),
+                                     hints=w.pf.side, note=f'SDK outcome {sdk_kind(sr)[0]}'); o.replay = None; obls.append(o); continue
                 sv = sr.fields[0]
                 svals = [x.t for x in (list(sv.fields.values()) if isinstance(sv.fields, dict) else sv.fields)]
                 if len(svals) != 4:
-                    o = M.Obligation(key + ':same_shape', sp.pc, FALSE); o.replay = None; obls.append(o); continue
+                    o = M.Obligation(key + ':same_shape', pc, FALSE); o.replay = None; obls.append(o); continue
                 g = T.and_(*[T.cmp('=', a, b_) for a, b_ in zip(pvals, svals)])
-                o = M.Obligation(key + ':same_step', sp.pc, g, hints=w.pf.side, note='amount_in, amount_out, next price, fee equal'); o.replay = None; obls.append(o)
+                o = M.Obligation(key + ':same_step', pc, g, hints=w.pf.side, note='amount_in, amount_out, next price, fee equal'); o.replay = None; obls.append(o)
+        ctx.extra[tag + ':paths'] = {'program_ok': len(P), 'sdk': len(S_)}
         ctx.extra[tag] = {'pairs': n}
         ctx.functions.update(w.e.executed); ctx.functions.update('sdk ' + x for x in w.es.executed)
         ctx.discharge(obls, cap=ctx.cap(60, 300))
@@ -609,9 +614,14 @@ def tasks():
         ('sdk:tick', tick_task),
         ('sdk:fees', fees_task),
         ('sdk:fee_manager', manager_task),
-    ] + [(f"sdk:step:{'in' if ei else 'out'}:{'a2b' if ab else 'b2a'}", step_task(ei, ab)) for ei in (True, False) for ab in (True, False)]
+    ]
+
+
+def thorough_tasks():
+    return [(f"sdk:step:{'in' if ei else 'out'}:{'a2b' if ab else 'b2a'}", step_task(ei, ab)) for ei in (True, False) for ab in (True, False)]
 
 
 def run(ctx):
     ctx.mir(); sdk_mir(ctx)
-    ctx.parallel(tasks(), max_procs=5)
+    ts = tasks() + (thorough_tasks() if ctx.tier == 'thorough' else [])
+    ctx.parallel(ts, max_procs=6)
